@@ -1,6 +1,6 @@
 (* Lemmas about the L0 tracker model: list facts, the reachability invariant. *)
 From Coq Require Import List NArith ZArith QArith Bool Lia Permutation.
-From Similari Require Import Base.Num Model.Constraints Model.Tracker.
+From Similari Require Import Base.Num Model.Constraints Model.Tracker Proofs.GateProofs.
 Import ListNotations.
 Open Scope N_scope.
 
@@ -37,9 +37,18 @@ Proof.
   - lia.
 Qed.
 
+(* the translated comparison of EpochDb::baked, through its spec lemma *)
+Lemma expired_ltb c e t : expired c e t = (t_last t + max_idle c <? epoch_of e (t_scene t)).
+Proof.
+  unfold expired. destruct (t_last t + max_idle c <? epoch_of e (t_scene t)) eqn:E.
+  - apply baked_wasted_cmp_spec. apply N.ltb_lt. exact E.
+  - destruct (SimilariGen.ScalarGate.baked_wasted_cmp Qops (t_last t) (max_idle c) (Some (epoch_of e (t_scene t)))) eqn:E2; [|reflexivity].
+    apply baked_wasted_cmp_spec in E2. apply N.ltb_lt in E2. congruence.
+Qed.
+
 Lemma expired_mono c e1 e2 t : epochs_le e1 e2 -> expired c e1 t = true -> expired c e2 t = true.
 Proof.
-  unfold expired. intros H H1. apply N.ltb_lt in H1. apply N.ltb_lt. specialize (H (t_scene t)). lia.
+  rewrite !expired_ltb. intros H H1. apply N.ltb_lt in H1. apply N.ltb_lt. specialize (H (t_scene t)). lia.
 Qed.
 
 (* ------------------------------------------------------------------------------------------------ *)
